@@ -71,6 +71,12 @@ func (e *Engine) store(p Value, v Value) {
 		}
 	case *TablePtr:
 		e.obligation(term.Eq(asT(v), p.V), "table-contract: value stored into "+p.Label+" equals the field product", false)
+		if e.tableLoop != nil {
+			if p.Key == "" {
+				panic(unsupported("table loop: store with a symbolic inner index"))
+			}
+			e.tableLoop.stores[p.Key] = p.C
+		}
 	case *ROPtr, *TableRef:
 		panic(unsupported("store to read-only table"))
 	default:
@@ -327,6 +333,13 @@ func (e *Engine) checkIndex(idx *term.T, n int) (int, bool) {
 	return int(i), true
 }
 
+func tableKey(field int, idx *term.T) string {
+	if !idx.IsConst() {
+		return ""
+	}
+	return fmt.Sprintf("f%d[%d]", field, idx.Val)
+}
+
 func (e *Engine) tableElem(x *TableRef, idx *term.T) Value {
 	if x.Field < 0 {
 		panic(unsupported("index of whole table entry"))
@@ -345,7 +358,7 @@ func (e *Engine) tableElem(x *TableRef, idx *term.T) Value {
 		} else {
 			w = term.Concat(j, term.Const(8, 0))
 		}
-		return &TablePtr{V: term.GFMul(x.C, w), Label: fmt.Sprintf("mulTable[c].s%d[j]", 8*x.Field)}
+		return &TablePtr{V: term.GFMul(x.C, w), Label: fmt.Sprintf("mulTable[c].s%d[j]", 8*x.Field), C: x.C, Key: tableKey(x.Field, idx)}
 	case "mulTable64":
 		if !e.branch(term.Ult(idx, term.Const(idx.W, 16)), "bounds") {
 			e.goPanic("runtime error: index out of range with length 16")
@@ -355,9 +368,9 @@ func (e *Engine) tableElem(x *TableRef, idx *term.T) Value {
 		w := term.Shl(term.ZExt(j, 16), term.Const(8, uint64(sh)))
 		p := term.GFMul(x.C, w)
 		if x.Field < 4 {
-			return &TablePtr{V: term.Extract(p, 7, 0), Label: fmt.Sprintf("mulTable64[c].s%dLow[j]", sh)}
+			return &TablePtr{V: term.Extract(p, 7, 0), Label: fmt.Sprintf("mulTable64[c].s%dLow[j]", sh), C: x.C, Key: tableKey(x.Field, idx)}
 		}
-		return &TablePtr{V: term.Extract(p, 15, 8), Label: fmt.Sprintf("mulTable64[c].s%dHigh[j]", sh)}
+		return &TablePtr{V: term.Extract(p, 15, 8), Label: fmt.Sprintf("mulTable64[c].s%dHigh[j]", sh), C: x.C, Key: tableKey(x.Field, idx)}
 	}
 	panic(unsupported("table kind " + x.Kind))
 }
